@@ -446,3 +446,6 @@ func (c *CaseC08) Eval(ob *Obs) []Finding {
 	}
 	return nil
 }
+
+func (c *CaseC08) base() *CLIBase  { return &c.Base }
+func (c *CaseC08) clone() baseCase { d := *c; return &d }
